@@ -358,6 +358,18 @@ pub fn run_scenario(job: &Value) -> Value {
                     }
                 } else if let Some(ms) = st.get("settle").and_then(|x| x.as_u64()) {
                     settle(&ctx, ms, deadline);
+                } else if let Some(name) = st.get("await_end").and_then(|x| x.as_str()) {
+                    // until the session's thread has ended (bounded by the scenario deadline)
+                    while Instant::now() < deadline {
+                        let done = match env.started.lock().unwrap().get(name) {
+                            Some(s) => s.thread.as_ref().map(|t| t.is_finished()).unwrap_or(true),
+                            None => true,
+                        };
+                        if done {
+                            break;
+                        }
+                        std::thread::sleep(Duration::from_millis(1));
+                    }
                 } else if let Some(name) = st.get("cancel").and_then(|x| x.as_str()) {
                     if let Some(s) = env.started.lock().unwrap().get(name) {
                         let _ = s.sender.send(Box::new(Event::new_simple(fsm::EVENT_CANCEL_SESSION)));
